@@ -193,13 +193,13 @@ class Session:
             del self.events[:-200]
             raise SessionTimeout()
 
-    async def open(self, *a, **kw):
+    async def open(self, *a, limit=None, **kw):
         self.nopen += 1
         if self.nopen > 1 and self.refuse > 0:
             self.refuse -= 1
             self.ev(["refused"])
             raise ConnectionRefusedError("scripted refusal")
-        lim = self.spec.get("limit")
+        lim = self.spec.get("limit") or limit          # the session's own limit, else the one the client asked for
         r = asyncio.StreamReader(limit=lim) if lim else asyncio.StreamReader()
         w = FakeWriter(self, len(self.writers))
         self.readers.append(r)
@@ -212,7 +212,7 @@ def _install(sess):
     import serial_asyncio
 
     async def fake_open_connection(host=None, port=None, **kw):
-        return await sess.open()
+        return await sess.open(limit=kw.get("limit"))
 
     async def fake_open_serial(*a, **kw):
         return await sess.open()
